@@ -105,6 +105,10 @@ def run(ctx):
         ctx.check("C07-R5", "Worker::%s fully classified" % name, not unk,
                   "cannot decide: Worker::%s awaits an unclassified future %s" % (name, short_chain(unk[0]) if unk else ""), c.fn.at)
 
+    ctx.rule("C07-R6", "the library never narrows QUIC flow control itself (shared credit is what couples streams)")
+    from rules import shared
+    shared.library_flow_control(ctx, "C07-R6")
+
     ctx.rule("C07-R3", "Driver accept methods hold at most the guard of their own queue across a suspension")
     n = 0
     for name in ("accept_settings", "accept_uni", "accept_bi", "receive_datagram", "accept_session", "register_session", "result"):
